@@ -78,12 +78,22 @@ def render_term(fmt: str, args: list) -> Any:
     return z3.Concat(*parts) if len(parts) > 1 else parts[0]
 
 
+def wide_notations() -> list:
+    """generated n-ary notations with two-digit argument positions: only in the string obligations, with the arguments
+    other than the one asked about fixed to distinct constants (all-symbolic queries over 11-12 strings do not finish)"""
+    from proof_generation import pattern as P
+    from proof_generation.proofs import kore as K
+
+    return [('kore.nary_app(f,11)', K.nary_app(P.Symbol('f'), 11)), ('kore.nary_app(c,12,cell)', K.nary_app(P.Symbol('c'), 12, True))]
+
+
 def string_obligations(use_cvc5: bool = False) -> tuple[list, dict]:
     """-> (violations, stats).  One query per (notation, argument the definition depends on)."""
     viol: list = []
     stats = {'notations': 0, 'queries': 0, 'unsat': 0, 'solver_s': 0.0, 'samples': []}
     t0 = time.time()
-    for label, nt in live_notations():
+    wide = wide_notations()
+    for label, nt in live_notations() + wide:
         stats['notations'] += 1
         deps = sorted(nt.definition.metavars())
         for j in deps:
@@ -100,6 +110,8 @@ def string_obligations(use_cvc5: bool = False) -> tuple[list, dict]:
                 s.add(z3.Length(a[i]) <= 8, z3.Length(b[i]) <= 8)
                 if i != j:
                     s.add(a[i] == b[i])
+                    if (label, nt) in wide:
+                        s.add(a[i] == z3.StringVal(f't{i}'))
             s.add(a[j] != b[j])
             s.add(ra == rb)
             q0 = time.time()
